@@ -103,6 +103,39 @@ def run_part(prop, seed, budget):
             insts.append((name, real.replace("{i}", i), twin.replace("{i}", i) if twin else None, [({k_: (v_.replace("{i}", i) if isinstance(v_, str) else v_) for k_, v_ in d_.items()} if isinstance(d_, dict) else d_) for d_ in data], {a: ({x.replace("{i}", i): y.replace("{i}", i) for x, y in b.items()} if isinstance(b, dict) else b) for a, b in opts.items()}, [l.replace("{i}", i) for l in lines]))
     ns = vars(build_module(src, f"objmodel{seed}"))
 
+    # K: the model of the metadata chain (Api.Meta.fullMetadata, driver op "metachain") against `ObjectField.full_metadata` on fields whose type is an
+    # annotated alias re-annotated up to three times, with and without field metadata: which alias / description wins
+    if prop in ("C11", "C04"):
+        from common import model
+        from apischema.objects import object_fields
+        ksrc = ["from dataclasses import dataclass, field", "from typing import *", "from apischema import alias, schema", ""]
+        kspecs = []
+        for j in range(12 * budget):
+            levels = [[(k, f"{k}{j}_{lv}") for k in r.sample(["alias", "descr"], r.randint(0, 2))] for lv in range(r.randint(1, 3))]
+            fm = [(k, f"{k}{j}_f") for k in r.sample(["alias", "descr"], r.randint(0, 1))]
+            def md(pairs): return [("alias(%r)" % v) if k == "alias" else ("schema(description=%r)" % v) for k, v in pairs]
+            tp = "int"
+            for lv in levels: tp = "Annotated[" + ", ".join([tp] + (md(lv) or ["'doc'"])) + "]"
+            ksrc += ["@dataclass", f"class MK{j}:", f"    f: {tp} = " + (f"field(default=0, metadata={' | '.join(md(fm))})" if fm else "0"), ""]
+            kspecs.append((j, levels, fm))
+        kns = vars(build_module(ksrc, f"objmodelmeta{seed}"))
+        reqs = []
+        for j, levels, fm in kspecs:
+            for key in ("alias", "descr"):
+                reqs.append({"op": "metachain", "id": len(reqs), "field": [list(p) for p in fm], "annos": [[list(p) for p in lv] for lv in levels], "key": key})
+        reps = model(reqs); it = iter(reps)
+        for j, levels, fm in kspecs:
+            fld = object_fields(kns[f"MK{j}"])["f"]
+            for key in ("alias", "descr"):
+                rep = next(it); n += 1; hist["K:metadata-chains"] += 1
+                from apischema.metadata.keys import ALIAS_METADATA, SCHEMA_METADATA
+                fmd = fld.full_metadata
+                real = (str(fmd[ALIAS_METADATA]) if ALIAS_METADATA in fmd else None) if key == "alias" else (fmd[SCHEMA_METADATA].description if SCHEMA_METADATA in fmd else None)
+                if key == "alias" and (str(fld.alias) if fld.alias != "f" else None) != real: real = "field.alias=" + str(fld.alias) + " but full_metadata says " + str(real)
+                if "error" in rep or rep["value"] != real:
+                    failures.append({"kind": "K", "k_ok": False, "part": "object-model-twins", "features": ["object-model", "metadata-chain"], "why": ["model and implementation disagree"],
+                                     "py": f"MK{j}", "key": key, "levels(innermost first)": levels, "field_metadata": fm, "model": rep, "real": real})
+
     def out(fn):
         try: return ("ok", fn())
         except ValidationError as e: return ("invalid", e.errors)
